@@ -32,6 +32,8 @@ type AuthCfg struct {
 	Iter          int    `json:"iter,omitempty"`
 	NonceSuffix   string `json:"nonceSuffix,omitempty"`
 	CramChallenge string `json:"cramChallenge,omitempty"`
+	// RefuseUnannounced: AUTH with a mechanism that the EHLO reply did not announce gets 504.
+	RefuseUnannounced bool `json:"refuseUnannounced,omitempty"`
 	// Adversary, when non-empty, replaces the honest SCRAM server by a scripted one (C15); each
 	// element names one server message of the alphabet documented in sasl_adversary.go.
 	Adversary []string `json:"adversary,omitempty"`
